@@ -64,6 +64,7 @@ pub enum Op {
     ExtendChars { k: u8, cs: Vec<char> },
     ExtendStrs { k: u8, ts: Vec<String> },
     CloneS { swap: bool },
+    CloneFrom(String),
     Write { t: String, n: i64 },
     Format { t: String, n: i64 },
     IntoBumpStr,
@@ -180,6 +181,7 @@ impl Op {
             Op::ExtendChars { .. } => "s_extend_chars",
             Op::ExtendStrs { .. } => "s_extend_strs",
             Op::CloneS { .. } => "s_clone",
+            Op::CloneFrom(_) => "s_clone_from",
             Op::Write { .. } => "s_write",
             Op::Format { .. } => "s_format",
             Op::IntoBumpStr => "s_into_bump_str",
@@ -216,6 +218,7 @@ impl Op {
             Op::ExtendChars { k, cs } => format!("{} k={} cs={}", n, k, cps(cs)),
             Op::ExtendStrs { k, ts } => format!("{} k={} ts={}", n, k, texts(ts)),
             Op::CloneS { swap } => format!("{} swap={}", n, *swap as u8),
+            Op::CloneFrom(t) => format!("{} t={}", n, hexs(t.as_bytes())),
             Op::Write { t, n: v } => format!("{} t={} v={}", n, hexs(t.as_bytes()), v),
             Op::Format { t, n: v } => format!("{} t={} v={}", n, hexs(t.as_bytes()), v),
             Op::Reserve(c) => format!("{} n={}", n, c),
@@ -263,6 +266,7 @@ impl Op {
             "s_extend_chars" => Op::ExtendChars { k: us("k")? as u8, cs: uncps(kv(&toks, "cs")?)? },
             "s_extend_strs" => Op::ExtendStrs { k: us("k")? as u8, ts: untexts(kv(&toks, "ts")?)? },
             "s_clone" => Op::CloneS { swap: fl("swap")? },
+            "s_clone_from" => Op::CloneFrom(tx("t")?),
             "s_write" => Op::Write { t: tx("t")?, n: kv(&toks, "v")?.parse().ok()? },
             "s_format" => Op::Format { t: tx("t")?, n: kv(&toks, "v")?.parse().ok()? },
             "s_into_bump_str" => Op::IntoBumpStr,
